@@ -336,7 +336,7 @@ class Emit:
                 elif t['op'] == 'switch': ss = [t['default']] + [lb for (_, lb) in t['cases']]
                 elif t['op'] == 'invoke': ss = [t['normal']]
             succ[bn] = ss
-        color = {}; be = set()
+        color = {}; be = set(); post = []
         stack = [(blocks[0], iter(succ[blocks[0]]))]; color[blocks[0]] = 1
         while stack:
             bn, it = stack[-1]
@@ -347,7 +347,8 @@ class Emit:
                 elif color[nx] == 1:
                     be.add((bn, nx))
             if not adv:
-                color[bn] = 2; stack.pop()
+                color[bn] = 2; stack.pop(); post.append(bn)
+        s.last_rpo = list(reversed(post))
         return be
 
     # ---------------- function body
@@ -449,13 +450,24 @@ class Emit:
         raw_name = f.name[1:].strip('"')
         for (rx, U) in s.spin:
             if rx.search(raw_name): spinU = U
-        bedges = s.back_edges(f) if (spinU is not None or gs) else set()
-        all_bedges = bedges
-        if spinU is None: bedges = set()
-        spin_ctr = {}
-        for k, e in enumerate(sorted(bedges)):
-            spin_ctr[e] = 'spin_%d' % k
-            (sdecls if coro else decls).append(('static ' if coro else '') + 'unsigned spin_%d;' % k)
+        all_bedges = s.back_edges(f)
+        rpo = s.last_rpo            # blocks are emitted in reverse post-order: every edge that is not a DFS back edge goes forward in the C text,
+                                    # and every loop header gets ONE latch (the only backward goto), so that cbmc's per-goto unwinding counter
+                                    # counts iterations of the loop and symex never re-walks code through a backward non-loop jump
+        rpo_idx = {b: i for i, b in enumerate(rpo)}
+        latch_after = {}            # block name -> [headers whose latch is emitted right after it]
+        for h in sorted(set(t for (_, t) in all_bedges)):
+            srcs = [f_ for (f_, t) in all_bedges if t == h]
+            last = max(srcs, key=lambda b: rpo_idx[b])
+            latch_after.setdefault(last, []).append(h)
+        bedges = all_bedges if spinU is not None else set()
+        spin_ctr = {}; hdr_ctr = {}
+        for e in sorted(bedges):
+            # one counter per loop header: a loop with several back edges (continue statements) shares it
+            if e[1] not in hdr_ctr:
+                k = len(hdr_ctr); hdr_ctr[e[1]] = 'spin_%d' % k
+                (sdecls if coro else decls).append(('static ' if coro else '') + 'unsigned spin_%d%s;' % (k, '' if coro else ' = 0'))
+            spin_ctr[e] = hdr_ctr[e[1]]
             s.report['spin_loops'].append({'function': raw_name, 'edge': [e[0], e[1]], 'U': spinU})
         def jump(frm, to):
             if gs:
@@ -467,11 +479,11 @@ class Emit:
                 if cp == 'goto %s;' % labels[to]: return cp
                 return 'if (MODE == 1) { %s } goto %s;' % (cp, labels[to])
             return jump_run(frm, to)
+        def latch_label(h): return 'LATCH_' + labels[h][1:]
         def jump_run(frm, to):
             mv = phis.get((frm, to), [])
             out = ''
-            if (frm, to) in spin_ctr:
-                out += 'if (++%s > %d) __verif_assume(0); ' % (spin_ctr[(frm, to)], spinU)
+            is_back = (frm, to) in all_bedges
             if len(mv) == 1:
                 d, t, v = mv[0]; out += '%s = %s; ' % (s.fnames[d], s.val(t, v))
             elif mv:
@@ -481,8 +493,21 @@ class Emit:
                 for i, (d, t, v) in enumerate(mv):
                     o2 += '%s = phi_t%d; ' % (s.fnames[d], i)
                 out += '{ ' + o2 + '} '
-            return out + 'goto %s;' % labels[to]
-        for bn, insts in f.blocks.items():
+            return out + 'goto %s;' % (latch_label(to) if is_back else labels[to])
+        def emit_latches(bn):
+            for h in latch_after.get(bn, []):
+                g_close()
+                sp = ''
+                if (bn, h) in spin_ctr or any((f_, h) in spin_ctr for (f_, t_) in all_bedges if t_ == h):
+                    ctr = next(spin_ctr[e] for e in spin_ctr if e[1] == h)
+                    sp = 'if (++%s > %d) __verif_assume(0); ' % (ctr, spinU)
+                body.append('%s: ; %sgoto %s;' % (latch_label(h), sp, labels[h]))
+        emit_order = [b for b in rpo if b in f.blocks]         # blocks unreachable from the entry are dropped
+        prev_bn = None
+        for bn in emit_order:
+            insts = f.blocks[bn]
+            if prev_bn is not None: emit_latches(prev_bn)
+            prev_bn = bn
             g_close()
             body.append('%s: ;' % labels[bn])
             for I in insts:
@@ -617,6 +642,7 @@ class Emit:
                     else: body.append('  __verif_unreachable();')
                 else:
                     raise Unsupported(op)
+        if prev_bn is not None: emit_latches(prev_bn)
         nlines = sum(len(b) for b in f.blocks.values())
         s.report['functions'].setdefault(raw_name, {'ir_insts': nlines, 'coroutine': coro, 'yield_points': 0})
         if coro: s.report['functions'][raw_name]['yield_points'] = len([x for x in resume if x[1].startswith('Y')])
@@ -631,7 +657,7 @@ class Emit:
             sd = sdecls + ['static ' + s.cty(t, s.fnames[n]) + ';' for (t, n) in f.params] + ['static int PC;']
             if retdummy: sd.append('static ' + s.cty(f.ret, 'RETV') + ';')
             entry = '  if (PC == 0) { %s %s }\n' % (' '.join('%s = p_%s;' % (s.fnames[n], s.fnames[n]) for (t, n) in f.params),
-                                                    ' '.join('%s = 0;' % c for c in spin_ctr.values()))
+                                                    ' '.join('%s = 0;' % c for c in sorted(set(spin_ctr.values()))))
             entry += ''.join('  else if (PC == %d) goto %s;\n' % (i, l) for (i, l) in resume)
             return hdr + '\n{\n  ' + '\n  '.join(sd + decls) + '\n' + entry + '\n'.join(body) + '\n}\n'
         g_close()
@@ -639,7 +665,7 @@ class Emit:
         if retdummy: sd.append('static ' + s.cty(f.ret, 'RETV') + ';')
         # MODE 1 = executing, 0 = walking (execution off) to the resume point PC, 2 = yielded in this call (execution off until LEND)
         entry = '  if (PC == 0) { MODE = 1; %s %s } else { MODE = 0; }\n' % (' '.join('%s = p_%s;' % (s.fnames[n], s.fnames[n]) for (t, n) in f.params),
-                                                ' '.join('%s = 0;' % c for c in spin_ctr.values()))
+                                                ' '.join('%s = 0;' % c for c in sorted(set(spin_ctr.values()))))
         tail = '\nLEND: ;\n  return%s;' % (' RETV' if retdummy else '')
         return hdr + '\n{\n  ' + '\n  '.join(sd + decls) + '\n' + entry + '\n'.join(body) + tail + '\n}\n'
 
